@@ -241,25 +241,36 @@ pub fn explore(p: &dyn Program, depth: usize, max_wall_s: u64) -> Value {
     let mut completed_depth = 0;
     let mut capped = false;
     for d in 1..=depth {
-        let work: Vec<(Vec<usize>, usize)> = frontier.iter().flat_map(|h| (0..p.n_ops()).map(move |o| (h.clone(), o))).collect();
+        // work item i = (frontier[i / n_ops], op i % n_ops); workers keep only a digest of the reached state, so a level costs
+        // a few bytes per transition whatever its size
+        let n_ops = p.n_ops();
+        let total = frontier.len() * n_ops;
         let next = std::sync::atomic::AtomicUsize::new(0);
-        let results: Mutex<Vec<(usize, StepReport)>> = Mutex::new(vec![]);
+        let results: Mutex<Vec<(usize, bool, Option<String>, (u64, u64))>> = Mutex::new(Vec::with_capacity(total));
         let over = std::sync::atomic::AtomicBool::new(false);
         std::thread::scope(|sc| {
             for _ in 0..16 {
-                sc.spawn(|| loop {
-                    let i = next.fetch_add(1, std::sync::atomic::Ordering::SeqCst);
-                    if i >= work.len() {
-                        break;
+                sc.spawn(|| {
+                    let mut local = vec![];
+                    loop {
+                        let i = next.fetch_add(1, std::sync::atomic::Ordering::SeqCst);
+                        if i >= total {
+                            break;
+                        }
+                        if t0.elapsed().as_secs() > max_wall_s {
+                            over.store(true, std::sync::atomic::Ordering::SeqCst);
+                            break;
+                        }
+                        let mut h = frontier[i / n_ops].clone();
+                        h.push(i % n_ops);
+                        let rep = p.replay(&h);
+                        let dg = h128(&rep.state);
+                        local.push((i, rep.enabled, rep.mismatch, dg));
+                        if local.len() >= 4096 {
+                            results.lock().unwrap().append(&mut local);
+                        }
                     }
-                    if t0.elapsed().as_secs() > max_wall_s {
-                        over.store(true, std::sync::atomic::Ordering::SeqCst);
-                        break;
-                    }
-                    let mut h = work[i].0.clone();
-                    h.push(work[i].1);
-                    let rep = p.replay(&h);
-                    results.lock().unwrap().push((i, rep));
+                    results.lock().unwrap().append(&mut local);
                 });
             }
         });
@@ -271,23 +282,25 @@ pub fn explore(p: &dyn Program, depth: usize, max_wall_s: u64) -> Value {
         res.sort_by_key(|r| r.0);
         let mut new_frontier = vec![];
         let mut level_trans = 0u64;
-        for (i, rep) in res {
-            if !rep.enabled {
+        for (i, enabled, mismatch, dg) in res {
+            if !enabled {
                 disabled += 1;
                 continue;
             }
             transitions += 1;
             level_trans += 1;
-            let mut h = work[i].0.clone();
-            h.push(work[i].1);
-            if let Some(m) = rep.mismatch {
+            if let Some(m) = mismatch {
                 if viol.len() < 60 {
+                    let mut h = frontier[i / n_ops].clone();
+                    h.push(i % n_ops);
                     viol.push(json!({"program": p.name(), "history": h.iter().map(|o| p.describe(*o)).collect::<Vec<_>>(), "ops": h, "what": m}));
                 }
                 // a diverged pair of chains is not explored further
                 continue;
             }
-            if seen.insert(h128(&rep.state)) {
+            if seen.insert(dg) {
+                let mut h = frontier[i / n_ops].clone();
+                h.push(i % n_ops);
                 new_frontier.push(h);
             }
         }
